@@ -32,7 +32,7 @@ THEOREMS = ['C01_table_wf', 'C01_no_argument_lost', 'C01_command_complete', 'C01
             'C01_dep_targets_kept', 'C01_every_result_affecting_arg_is_hashed', 'C01_class_side_conditions',
             'C01_hash_key_side_conditions', 'C01_hashed_args_reach_hash_key', 'C01_preprocessed_suffixes_passthrough',
             'C01_dep_target_without_md_dropped', 'C01_x_rs_dropped', 'C01_resynthesis_fixpoint_refuted',
-            'C01_resynthesis_fixpoint_partial', 'C01_hit_replays_stored', 'C01_failure_verbatim_never_stored',
+            'C01_resynthesis_fixpoint_partial', 'C01_hit_replays_stored', 'C01_hit_returns_stored_entry', 'C01_failure_verbatim_never_stored',
             'C01_noncacheable_passthrough']
 ASSUMPTIONS = [
     'PARTIAL: gcc and clang are not modelled.  The theorems are about sccache\'s own classification (no argument lost, '
@@ -626,13 +626,57 @@ def monitor_search(case, out):
     return []
 
 
+# ------------------------------------------------------------------ leg `entry`: what a hit hands back, byte for byte
+
+ENTRY_SIZES = [0, 1, 100, 4095, 65535, 65536, 65537, 131071, 131072, 131073, 196608, 200001, 262144, 300000, 400001]
+
+
+def gen_entry(rng, n):
+    out = []
+    # every size class with each kind alone (random = zstd stores the blocks raw; zeros; text) ...
+    for size in ENTRY_SIZES:
+        for kind in (0, 1, 2):
+            if size > 200001 and kind:
+                continue                      # the large compressible ones are covered by the mixtures below
+            out.append([0o644 if kind else 0o755, [[kind, size]], size % 977, size % 313])
+    # ... and mixtures, so that raw and compressed blocks alternate inside one member
+    for _ in range(n):
+        chunks = [[rng.choice([0, 0, 1, 2]), rng.choice([1, 1000, 60000, 65536, 70000, 131072, 131073, 150000])] for _ in range(rng.range(1, 4))]
+        out.append([rng.choice([0o644, 0o755, 0o600, 0o640]), chunks, rng.choice([0, 10, 70000, 140000]), rng.choice([0, 5, 131073])])
+    return out
+
+
+def monitor_entry(case, out):
+    """the property on the real path: the restored member has the length, the mode and the checksum of what was stored"""
+    mode, chunks, nout, nerr = case
+    if not isinstance(out, list) or not out or out[0] != b'ok':
+        return ['storing / restoring a cache entry failed: %r' % (out,)]
+    want_len = sum(c[1] for c in chunks)
+    vs = []
+    if out[2] != want_len:
+        vs.append('a cache hit restores %d bytes of an object of %d bytes (chunks %r): truncated / padded output file' % (out[2], want_len, chunks))
+    if out[1] != mode:
+        vs.append('a cache hit restores mode %o for an object stored with mode %o' % (out[1], mode))
+    if out[4] != nout or out[6] != nerr:
+        vs.append('a cache hit replays %d / %d bytes of stdout / stderr, stored were %d / %d' % (out[4], out[6], nout, nerr))
+    return vs
+
+
 def legs(tier):
     def gp(rng, tier):
         return gen_parse(rng, 60000 if tier == 'thorough' else 2400)
 
     def gs(rng, tier):
         return gen_search(rng, 30000 if tier == 'thorough' else 1500)
+    def ge(rng, tier):
+        return gen_entry(rng, 400 if tier == 'thorough' else 40)
     return [
+        Leg('entry', ge, monitor=monitor_entry, nontrivial=lambda c, o: sum(x[1] for x in c[1]) > 65536,
+            stats=lambda c, o: ['kinds=' + ''.join(str(x[0]) for x in c[1]), 'size>128K=%d' % (sum(x[1] for x in c[1]) > 131072)],
+            shrink=lambda c: ([c[0], c[1][:i] + c[1][i + 1:], c[2], c[3]] for i in range(len(c[1]))),
+            rule='cache entries written by the real CacheWrite and read back by the real CacheRead (what a hit hands to the client): one '
+                 'object member of 15 sizes around the 64 KiB / 128 KiB block sizes x incompressible / zeros / text, mixtures of such '
+                 'chunks, stdout / stderr up to 140 KB; observation = mode, length, 32-bit checksum; non-trivial = member > 64 KiB'),
         Leg('parse', gp, monitor=monitor_parse, nontrivial=nontrivial_parse, shrink=shrink_parse,
             neighbours=neighbours_parse, classify=classify_parse, stats=stats_parse,
             rule='argument vectors for gcc and clang kinds: table rows of both ARGS tables in every spelling form '
